@@ -10,7 +10,8 @@ from vf import gen_edif, gen_ir, model
 from vf.core import Prop, Result
 
 NAMES = ["a", "b", "c", "d", "clk", "data", "q", "sel", "Top", "U1", "n_1", "x y", "a.b", "3d", "w/e",
-         "net$1", "Q", "B", "row[0].q", "row[1].q", "m[2]x", "_u", "$v", "[1]"]
+         "net$1", "Q", "B", "row[0].q", "row[1].q", "m[2]x", "_u", "$v", "[1]",
+         "L" * 255, "k" + "9" * 253]
 
 
 def parse_text(text):
@@ -48,7 +49,8 @@ class C05(Prop):
         return gen_ir.Cfg(unnamed=False, alphabet=NAMES, max_defs=7 if big else 5, max_children=4,
                           max_width=4 if big else 3, share=True, top="always", lib_monotone=True,
                           reorder=False, top_modes=["standalone"], data_values="edif",
-                          undefined_dir=True, one_wide_arrays=True)
+                          undefined_dir=True, one_wide_arrays=True,
+                          bundle_alphabet=[n for n in NAMES if len(n) < 200])
 
     def strategy(self, tier):
         return st.fixed_dictionaries({"design": gen_ir.recipes(self.cfg(tier)),
